@@ -388,7 +388,7 @@ def callee_universe(pool=('x', 'y')):
     return universe(2, list(pool))
 
 
-def gen_programs(rng, count, tainted=False, contexts=None, routes=None, valid_only=True):
+def gen_programs(rng, count, tainted=False, contexts=None, routes=None, valid_only=True, second_unresolvable=False):
     outers = outer_universe()
     cal_xy = callee_universe(('x', 'y'))
     cal_ab = callee_universe(('a', 'x'))     # may collide with wrapper names
@@ -411,18 +411,24 @@ def gen_programs(rng, count, tainted=False, contexts=None, routes=None, valid_on
                 continue
         p.context = rng.choice(contexts)
         ncalls = 2 if p.context == 'ifelse2' else rng.choice([1, 1, 1, 2])
+        if second_unresolvable:
+            # a resolvable forwarding call followed by one whose callee cannot be resolved
+            # statically (and is a different function): the answer must be the plain signature
+            if p.route not in ('global', 'closure', 'attribute'):
+                continue
+            ncalls = 2
         if p.route in ('parameter', 'param_default'):
             ncalls = 1
             if p.context == 'ifelse2':
                 p.context = 'if'
-        keys = ['callee', 'callee2'][:ncalls] if rng.random() < 0.7 else ['callee'] * ncalls
+        keys = ['callee', 'callee2'][:ncalls] if (second_unresolvable or rng.random() < 0.7) else ['callee'] * ncalls
         if p.route in ('partial_route', 'chain_kw', 'chain_pos'):
             # reading a global name as an argument makes the walker forget it
             # (visit_Name), so a second partial(callee, ...) of the same name is
             # 'unresolvable' and yields the fallback: covered by the property's
             # cannot-be-resolved clause, not generated
             keys = ['callee', 'callee2'][:ncalls]
-        for key in set(keys):
+        for key in sorted(set(keys)):
             pool = cal_ab if rng.random() < 0.15 else cal_xy
             p.callees[key] = rng.choice(pool)
         has_va = p.va_name is not None
@@ -452,7 +458,7 @@ def gen_programs(rng, count, tainted=False, contexts=None, routes=None, valid_on
             partial = (p.route == 'partial_route')
             cobj = Call(key, n, names, va, vk, own_va, own_vk, partial)
             if (len(p.calls) == 1 and p.route in ('global', 'closure', 'attribute')
-                    and rng.random() < 0.25):
+                    and (second_unresolvable or rng.random() < 0.25)):
                 cobj.unresolvable = True
             if p.route == 'param_default':
                 cobj.unresolvable = True
